@@ -17,7 +17,7 @@ CHECKS["C08"] = {
              "need-more for every proper prefix, varint round trip/length/LEB128 agreement, SplitN/SplitData laws. "
              "Non-trivial: a multi-byte varint or non-empty payload (round trip), input of >= 4 bytes (differential), encoding longer than 4 bytes (prefixes), "
              "value >= 128 (varint), multi-frame or exact-multiple split (split); every enumerated string counts once."),
-    "exhaustive": "sub-check C08/exhaustive enumerates ALL byte strings of length <= 2 and all strings of length 3..5 over {00,01,7f,80,ff} and 6..8 (12 thorough) over {00,80,ff}; the other sub-checks sample",
+    "exhaustive": "sub-check C08/exhaustive enumerates ALL byte strings of length <= 2 and all strings of length 3..5 over {00,01,7f,80,ff} and 6..8 (12 thorough) over {00,80,ff}, and in the thorough tier ALL 16.7 M strings of length 3; the other sub-checks sample",
     "assumptions": ["the reference decoder in harness/ref/frame.go is a faithful reading of drpcwire/README.md (10th varint byte: value mod 2^64; non-minimal varints accepted)",
                     "sampling beyond the enumerated short strings"],
     "subs": [
